@@ -7,6 +7,30 @@ ROOT = os.path.dirname(os.path.dirname(os.path.abspath(__file__)))
 ALL = ["C%02d" % i for i in range(1, 21)]
 
 CHECKS = {
+    "C06": dict(
+        technique="Lean 4 proof of panic-freedom of the model's applyEntry for all 46 handlers under an inductive state invariant (GInv), for every history; command table, MinParams and handler names regenerated from the Go source; the model is tied to the real ProcessMessage/applyRobustMessage by differential runs with recover() around every entry",
+        text="Machine-checked proof (C06_no_panic, C06_client_no_panic, C06_history_no_panic) that in every state reachable by any history of well-formed entries, applying any further entry returns without hitting any of the model's panic sites (every map/slice/nil dereference of the Go handlers is an explicit panic site in the model) — for client sessions with no condition on the line at all, for services links for protocol-conforming lines (prefix present, documented parameter count). The command table is re-extracted on every run (a new command without a modelled handler breaks C06_table_modelled). The model is hand-written: its faithfulness is checked on every run by executing the same histories (grammar of all commands x parameter shapes + garbage) on the real code with recover() and comparing state dumps and outputs; a real panic is a violation with the history as replay. Where the model declines (captcha verification) the theorem says nothing.",
+        design_ref="DESIGN.md §4 C06",
+        note="Trusts: Lean kernel; tools/extract; the hand-written handler models to the extent the differential runs exercise them; sorcix/irc.v2 parsing is modelled (C15). Two real panics (TOPIC by a non-member, services NICK at the session limit) and a nil-URL crash were found and repaired.",
+    ),
+    "C14": dict(
+        technique="Lean 4 inductive invariant proof over all handlers and all entry types (GInv = Inv + LInv + NInv + VInv), with corollaries spelling out the property; executable twin invB proved to follow from the invariant and compared on every state with an in-package walk over the real indexes",
+        text="Machine-checked proof (C14_reachable, C14_step and corollaries) that after every entry of every well-formed history: nicknames are unique under IRC case mapping and valid, channel names valid and keyed by their lower-cased name, membership is symmetric, no stored channel is empty, every member is a live session reachable by its current nickname, nickless sessions are in no channel and not indexed, no session is left flagged deleted, session creation is refused exactly at the configured limit. The executable predicate invB (proved to follow from the invariant, C14_invB) is evaluated by the driver on every model state and compared with VerifWalk over the real maps after every entry of generated histories (incl. SVSNICK/SVSJOIN/KILL/expiry/case-only nick changes and snapshot round-trips). Five genuine defects found this way were repaired (known_findings.json).",
+        design_ref="DESIGN.md §4 C14",
+        note="Trusts: Lean kernel; hand-written handler models tied by the differential runs; the channel limit (MaxChannels) is checked dynamically only.",
+    ),
+    "C01": dict(
+        technique="Lean 4 theorems over facts regenerated from the Go source (every map range on the replicated path classified by body shape; every clock/environment/goroutine use pinned outside the apply path) plus general order-insensitivity lemmas for each shape; the model run with all maps permuted after every entry and the real code run twice on the same histories",
+        text="Proved: each shape of map iteration that occurs on the apply path (collect+sort, set insertion, independent per-element update, early exit with a unique match) is insensitive to the iteration order; the list of map-range sites and their shapes, and the list of impure calls, are re-extracted from the source on every run and must equal the classified tables. That the handlers are congruent under map permutation is exercised, not proved: the Lean model is run with every map of the state permuted after every entry and must produce identical output and dumps, and the real code is run twice (Go randomises iteration) and compared byte for byte. Partial: the per-handler permutation congruence is not a theorem.",
+        design_ref="DESIGN.md §4 C01",
+        note="Trusts: Lean kernel; tools/extract (range-shape classifier); the shape -> insensitivity argument per site is by reading (recorded next to each site in Props/C01.lean); raft delivers the same log to all nodes.",
+    ),
+    "C03": dict(
+        technique="Lean 4 model of Marshal->Unmarshal-into-a-fresh-instance (saveLoad) with theorems on the restored state; field-coverage tables regenerated from serialize.go and the struct declarations; histories with save+load cuts on the real code compared with the same histories without cuts and with the model",
+        text="Proved (see Props/C03.lean): every field of Session (except the transient deleted mark), channel, banPattern, svshold and config.Network is restored by Unmarshal and written by Marshal (regenerated on every run, so a new field without serialization breaks the theorem); theorems on saveLoad relate the restored state to the original under the state invariant. The 'every continuation' half is exercised: random histories with cuts after random entries run on the real code, and every later output to live sessions and every state dump must equal the run without cuts; the model's saveLoad is compared with the real round trip. Partial: continuation equivalence is not a theorem (needs congruence of all handlers under map reordering, see C01).",
+        design_ref="DESIGN.md §4 C03",
+        note="Trusts: Lean kernel; tools/extract; the protobuf wire codec round-trips the decoded snapshot (C18 exercises it).",
+    ),
     "C02": dict(
         technique="Lean 4 invariant proof over all schedules of commit/Snapshot/Persist/failed Persist/Restore/restart on a bookkeeping model with the free interpretation of the replicated state; differential runs of the real FSM on real LevelDB stores and a real raft file snapshot store; replay-digest oracle",
         text="Machine-checked proof, for every log (index gaps included) and every schedule, that the node's state equals a plain replay of the committed log, that every persisted snapshot plus its retained entries reproduces the full prefix, that the log copy and output store hold exactly the un-folded commands, and that a snapshot folds only inputs older than now - (SessionExpiration + 10 s). The bookkeeping model is compared step by step with the real FSM (irclog indices, output ids, lastSnapshotState keys, snapshot bounds), and the real IRC state is compared with a plain replay after every step. The proof attempt pinned down three genuine bookkeeping defects, repaired (see known_findings.json).",
@@ -27,7 +51,7 @@ CHECKS = {
     ),
     "C16": dict(
         technique="Lean 4 theorems about the config handler's decision model and the FSM's Config case; regenerated facts for the revision test and the proposed entry; sequences of valid/invalid/stale/future posts on the real handlers with snapshot+restore and SIGKILL",
-        text="Proved: accepted iff the body parses and names the current revision; a rejected update proposes nothing; an accepted update, applied on any node, installs exactly that configuration with revision+1 and touches nothing else; unparsable entries are skipped; GLINE writes the ban into the replicated configuration. Sequences are executed on the real handlers (exhaustive up to length 4 in the thorough tier). Known finding: WhitelistedOrigins is not in the snapshot format.",
+        text="Proved: accepted iff the body parses and names the current revision; a rejected update proposes nothing; an accepted update, applied on any node, installs exactly that configuration with revision+1 and touches nothing else; unparsable entries are skipped; GLINE writes the ban into the replicated configuration. Sequences are executed on the real handlers (exhaustive up to length 4 in the thorough tier). WhitelistedOrigins must survive snapshot+restart (was lost; fixed in 60bc8a0).",
         design_ref="DESIGN.md §4 C16",
         note="Trusts: Lean kernel; tools/extract; BurntSushi/toml as the parser; posts are issued one after another.",
     ),
